@@ -8,3 +8,10 @@ Definition Rsc : Sc := {|
   sltb := fun a b => if Rlt_dec a b then true else false;
   seqb := fun a b => if Req_EM_T a b then true else false
 |}.
+
+(* expose the real-number operations hidden behind the record projections *)
+Ltac rsc :=
+  unfold s2, s3, s4, shalf, squarter in *;
+  cbn [T s0 s1 sadd ssub smul sdiv sneg Rsc] in *;
+  change (T Rsc) with R in *;
+  try match goal with |- @eq ?A ?a ?b => tryif constr_eq A R then idtac else change (@eq R a b) end.
